@@ -274,3 +274,9 @@ fn o20_1_stale_multifragment_time_sensitive() {
     assert!(s.total_size() == 0 && s.alloc == 0, "[C20] zero once everything has been acknowledged");
     std::mem::forget(r); std::mem::forget(s);
 }
+
+impl PacketSender {
+    pub(crate) fn verif_front_mode(&self) -> u8 {
+        match self.packet_send_queue.front().map(|p| p.mode) { Some(SendMode::TimeSensitive) => 0, Some(SendMode::Unreliable) => 1, Some(SendMode::Persistent) => 2, Some(SendMode::Reliable) => 3, None => 9 }
+    }
+}
